@@ -195,6 +195,18 @@ func values(thorough bool) []Val {
 		add("[]vt.S", "[]vt.S{"+s+"}")
 		add("map[string]vt.S", "map[string]vt.S{\"k\": "+s+"}")
 	}
+	// byte containers whose bytes happen to be printable text (file magics, two-letter codes, a short message)
+	for _, bt := range []string{"uint8", "vt.MyUint8"} {
+		add("[]"+bt, "[]"+bt+"{104, 101, 108, 108, 111}")
+		add("[]"+bt, "[]"+bt+"{97, 10, 9, 98}")
+		add("[4]"+bt, "[4]"+bt+"{71, 73, 70, 56}")
+		add("[2]"+bt, "[2]"+bt+"{97, 98}")
+		add("*[]"+bt, "ptr([]"+bt+"{104, 105})")
+		add("*[2]"+bt, "ptr([2]"+bt+"{111, 107})")
+		add("map[[2]"+bt+"]int", "map[[2]"+bt+"]int{{97, 98}: 1, {99, 100}: 2}")
+		add("[][]"+bt, "[][]"+bt+"{{80, 78, 71}, {}, nil}")
+		add("map[string][]"+bt, "map[string][]"+bt+"{\"k\": {111, 107}}")
+	}
 	add("vt.Emb", "vt.Emb{}")
 	add("vt.Emb", "vt.Emb{Inner: vt.Inner{X: 1}, Z: 2}")
 	add("vt.Emb", "vt.Emb{Z: 2}")
